@@ -58,6 +58,8 @@ pub enum Attack {
     S2FriDomain(u8),
     /// arbitrary inner-layer commitments; sibling leaves chosen after the queries are known
     S4UnboundLayers,
+    /// blow-up exponent p - m (taken modulo the field): evaluation domain 2^(t-m), smaller than the trace
+    S3ModularBlowup(u8),
 }
 
 pub struct Forged {
@@ -189,17 +191,35 @@ pub fn forge<L: LayoutTrait + GenericLayoutTrait>(
     let n1 = L::get_num_columns_first(&pi).ok_or("columns")?;
     let n2 = L::get_num_columns_second(&pi).ok_or("columns")?;
     let t = p.t;
-    let log_eval = t + p.c;
+    let s3_m: Option<u32> = match strat {
+        Attack::S3ModularBlowup(m) => Some(1 + (*m as u32 % 2)),
+        _ => None,
+    };
+    let sum_steps: u32 = p.steps.iter().sum();
+    if let Some(m) = s3_m {
+        if sum_steps + m > t || t - sum_steps > 15 {
+            return Err("attack not applicable: S3 needs sum(steps) <= t - m".into());
+        }
+    }
+    let log_eval = match s3_m {
+        Some(m) => t - m,
+        None => t + p.c,
+    };
+    let cosets_felt = match s3_m {
+        Some(m) => Felt::ZERO - Felt::from(m as u64),
+        None => Felt::from(p.c as u64),
+    };
+    let poly_len = 1usize << t.min(log_eval);
     let n = 1usize << log_eval;
     let mut notes = Vec::new();
     if p.steps.iter().sum::<u32>() + p.log_last != t {
         return Err("steps + log_last != t".into());
     }
-    let dom = StarkDomains::new(Felt::from(t as u64), Felt::from(p.c as u64));
+    let dom = StarkDomains::new(Felt::from(t as u64), cosets_felt);
     let g = root_of_unity(t);
     // (1) PRF low-degree columns and their LDE (bit-reversed order on the coset 3*<w>)
-    let polys: Vec<Vec<Felt>> = (0..n1 + n2).map(|j| prf_felts(mix64(p.seed, j as u64), 1 << t)).collect();
-    let hpolys: Vec<Vec<Felt>> = (0..2).map(|j| prf_felts(mix64(p.seed ^ 0xC0, j as u64), 1 << t)).collect();
+    let polys: Vec<Vec<Felt>> = (0..n1 + n2).map(|j| prf_felts(mix64(p.seed, j as u64), poly_len)).collect();
+    let hpolys: Vec<Vec<Felt>> = (0..2).map(|j| prf_felts(mix64(p.seed ^ 0xC0, j as u64), poly_len)).collect();
     let lde: Vec<Vec<Felt>> = polys.iter().map(|c| eval_on_coset_bitrev(c, Felt::THREE, log_eval)).collect();
     let hlde: Vec<Vec<Felt>> = hpolys.iter().map(|c| eval_on_coset_bitrev(c, Felt::THREE, log_eval)).collect();
     let rows = |cols: &[Vec<Felt>]| -> Vec<Felt> {
@@ -264,7 +284,7 @@ pub fn forge<L: LayoutTrait + GenericLayoutTrait>(
                 return Err("S1 needs k >= 2".into());
             }
         }
-        Attack::S5Lie(nl) | Attack::S2FriDomain(nl) => {
+        Attack::S5Lie(nl) | Attack::S2FriDomain(nl) | Attack::S3ModularBlowup(nl) => {
             for i in 0..(*nl as usize).min(m) {
                 let k = (prf_u64(p.seed ^ 0x53, i as u64) % m as u64) as usize;
                 mask[k] += prf_felt(p.seed ^ 0x54, i as u64);
@@ -325,18 +345,33 @@ pub fn forge<L: LayoutTrait + GenericLayoutTrait>(
     };
     let mut steps = vec![0u32];
     steps.extend(p.steps.iter().cloned());
-    let fparams = FriParams { steps: steps.clone(), log_last: p.log_last, log_blowup: p.c, nvf: p.nvf };
+    // S3: the values live on 2^(t-m) points; FRI is run on that domain with no blow-up at all
+    let fparams = match s3_m {
+        Some(m) => FriParams { steps: steps.clone(), log_last: t - m - sum_steps, log_blowup: 0, nvf: p.nvf },
+        None => FriParams { steps: steps.clone(), log_last: p.log_last, log_blowup: p.c, nvf: p.nvf },
+    };
     let fi = match strat {
         Attack::S4UnboundLayers => {
-            // arbitrary (PRF) inner-layer commitments
+            // arbitrary (PRF) inner-layer commitments and an arbitrary last layer, sent before the queries
             let seed = p.seed;
-            FriInstance::commit_with(kind, &fparams, nat, &mut ts, move |i, _| prf_felt(seed ^ 0x55, i as u64))
+            let mut fi = FriInstance::commit_with(kind, &fparams, vec![Felt::ZERO], &mut RefTranscript::new(Felt::ZERO), |_, r| r);
+            fi.roots = (0..fparams.n_inner()).map(|i| prf_felt(seed ^ 0x55, i as u64)).collect();
+            fi.eval_points.clear();
+            for r in fi.roots.clone() {
+                ts.absorb_one(r);
+                fi.eval_points.push(ts.squeeze());
+            }
+            fi.last_coefs = prf_felts(seed ^ 0x56, 1usize << p.log_last);
+            ts.absorb(&fi.last_coefs);
+            fi
         }
+        // a FRI instance declared for a domain 2^extra larger: trees padded, last layer = full interpolant
+        Attack::S2FriDomain(_) => FriInstance::commit_ext(kind, &fparams, nat, &mut ts, |_, r| r, fri_extra, 0),
+        // declared last-layer bound 2^(t - sum) although the final layer has only 2^(t - m - sum) points
+        Attack::S3ModularBlowup(_) => FriInstance::commit_ext(kind, &fparams, nat, &mut ts, |_, r| r, 0, s3_m.unwrap()),
         _ => FriInstance::commit(kind, &fparams, nat, &mut ts),
     };
-    if fri_extra > 0 {
-        notes.push("S2 is implemented as a declaration-only attack: the FRI data are those of the real domain".into());
-    }
+    let _ = &mut notes;
     // (7) proof of work, queries
     let nonce = pow_grind(kind, ts.digest, p.pow_bits, prf_u64(p.seed, 0x90));
     ts.absorb_u64(nonce);
@@ -344,9 +379,14 @@ pub fn forge<L: LayoutTrait + GenericLayoutTrait>(
     queries.sort();
     queries.dedup();
     // (8) witnesses
-    let open = fi.decommit(&queries);
-    let fri_witness = FriWitness {
-        layers: open.layers.iter().map(|l| LayerWitness { leaves: l.leaves.clone(), table_witness: twit(l.auth.clone()) }).collect(),
+    let fri_witness = if *strat == Attack::S4UnboundLayers {
+        let q_vals: Vec<(u64, Felt)> = queries.iter().map(|q| (*q, deep[*q as usize])).collect();
+        adaptive_fri_witness(&fparams, &fi.eval_points, &fi.last_coefs, &q_vals, p.seed)?
+    } else {
+        let open = fi.decommit(&queries);
+        FriWitness {
+            layers: open.layers.iter().map(|l| LayerWitness { leaves: l.leaves.clone(), table_witness: twit(l.auth.clone()) }).collect(),
+        }
     };
     let witness = StarkWitness {
         traces_decommitment: trace::Decommitment { original: TDecommitment { values: t_orig.rows(&queries) }, interaction: TDecommitment { values: t_int.rows(&queries) } },
@@ -376,7 +416,7 @@ pub fn forge<L: LayoutTrait + GenericLayoutTrait>(
         proof_of_work: swiftness_pow::config::Config { n_bits: p.pow_bits },
         log_trace_domain_size: Felt::from(t as u64),
         n_queries: Felt::from(p.n_queries as u64),
-        log_n_cosets: Felt::from(p.c as u64),
+        log_n_cosets: cosets_felt,
         n_verifier_friendly_commitment_layers: nvf_f,
     };
     // positive control (S0 only): everything except the OODS identity must be accepted
@@ -422,4 +462,74 @@ pub fn forge<L: LayoutTrait + GenericLayoutTrait>(
 
 fn mix64(a: u64, b: u64) -> u64 {
     splitmix(a ^ splitmix(b.wrapping_add(0x1234_5678_9abc_def1)))
+}
+
+
+/// evaluation-space fold of one coset (bit-reversed order, first element at x0):
+/// sum_j (b/x0)^j * sum_i v_i * w^(-j*bitrev_k(i)),  w = root of unity of order 2^k  (= 2^k * sum_j b^j r_j,
+/// r_j the coefficients of the degree < 2^k interpolant of the coset values)
+pub fn fold_coset(v: &[Felt], b: Felt, x0: Felt, k: u32) -> Felt {
+    let m = 1usize << k;
+    let winv = inv(root_of_unity(k));
+    let ratio = b * inv(x0);
+    let mut acc = Felt::ZERO;
+    let mut rj = Felt::ONE;
+    for j in 0..m {
+        let mut inner = Felt::ZERO;
+        for (i, vi) in v.iter().enumerate() {
+            inner += *vi * pow_u128(winv, (j as u128) * (bitrev(i as u64, k) as u128));
+        }
+        acc += rj * inner;
+        rj *= ratio;
+    }
+    acc
+}
+
+/// S4: sibling leaves chosen after the queries are known so that every fold lands on the pre-sent
+/// last layer. Fails (skipped case) when a final-layer coset has no free position.
+pub fn adaptive_fri_witness(fp: &FriParams, eval_points: &[Felt], last_coefs: &[Felt], queries: &[(u64, Felt)], seed: u64) -> Result<FriWitness, String> {
+    let mut cur: Vec<(u64, Felt)> = queries.to_vec();
+    let n_inner = fp.n_inner();
+    let mut layers = Vec::new();
+    for i in 0..n_inner {
+        let s = fp.steps[i + 1];
+        let msz = 1u64 << s;
+        let log_n = fp.log_layer(i);
+        let wl = root_of_unity(log_n);
+        let mut next: Vec<(u64, Felt)> = Vec::new();
+        let mut leaves = Vec::new();
+        let mut k = 0;
+        while k < cur.len() {
+            let coset = cur[k].0 >> s;
+            let mut vals: Vec<Option<Felt>> = vec![None; msz as usize];
+            while k < cur.len() && cur[k].0 >> s == coset {
+                vals[(cur[k].0 & (msz - 1)) as usize] = Some(cur[k].1);
+                k += 1;
+            }
+            let x0 = pow_u128(wl, bitrev(coset * msz, log_n) as u128);
+            let free: Vec<usize> = (0..msz as usize).filter(|j| vals[*j].is_none()).collect();
+            let mut full: Vec<Felt> = (0..msz as usize).map(|j| vals[j].unwrap_or_else(|| prf_felt(seed ^ 0x57, (i as u64) << 40 | coset << 8 | j as u64))).collect();
+            if i + 1 == n_inner {
+                // steer: fold is affine in the free sibling
+                let j = *free.first().ok_or("a final-layer coset is fully queried: no free sibling to steer")?;
+                let log_next = log_n - s;
+                let y = pow_u128(root_of_unity(log_next), bitrev(coset, log_next) as u128);
+                let target = horner(last_coefs, y);
+                full[j] = Felt::ZERO;
+                let base = fold_coset(&full, eval_points[i], x0, s);
+                let mut unit = vec![Felt::ZERO; msz as usize];
+                unit[j] = Felt::ONE;
+                let lambda = fold_coset(&unit, eval_points[i], x0, s);
+                full[j] = (target - base) * inv(lambda);
+            }
+            for j in &free {
+                leaves.push(full[*j]);
+            }
+            next.push((coset, fold_coset(&full, eval_points[i], x0, s)));
+        }
+        let auth = prf_felts(seed ^ 0x58 ^ i as u64, 8);
+        layers.push(LayerWitness { leaves, table_witness: twit(auth) });
+        cur = next;
+    }
+    Ok(FriWitness { layers })
 }
